@@ -136,7 +136,7 @@ impl Prop for C20 {
          x container in {CTPK, BCH, CGFX, TPL} x placement (0 = usual layout; otherwise a seeded conforming layout: CTPK names before/after payloads with gaps and arbitrary per-texture offsets; BCH both header shapes (compat byte <= 20 / >= 0x21), the four sections in any order with gaps, pointer table before/after the records; \
          CGFX TXOBs in any order after the DICT, names and payloads in any order after them, forward self-relative offsets, every fifth texture with a mip chain stored after its top level (size field = whole chain); TPL table, headers, palette and image data in any order). Oracle, full file: Ok, same count and order, names equal where stored, dimensions equal, pixel data equal to the reference decoding of that texture's own payload (and to mila's decoding of the same payload in a single-texture CTPK). \
          Wrong magic (BCH, CGFX, TPL; a random 32-bit value, or a single differing byte at each of the four positions) => Err. Strict prefixes (every cut for files <= 4 KiB quick / 64 KiB thorough, otherwise all cuts in the first 1 KiB, payload boundaries +-1 and a stride): no panic in either build, and Err whenever the cut lies before the end of some non-empty payload. \
-         Non-trivial: >= 2 textures with different formats, or a non-default placement; for prefixes: the cut falls inside a payload or a table. Distinct = distinct case value."
+         About 2 % of the sides are 256, 512 or 1 024 (hardware maximum); TPL images: sides 1..=64, 1 in 40 up to 1 024, 1 palette in 16 with 257..=1 024 entries; 1 texture name in 61 is 300+ bytes long. Non-trivial: >= 2 textures with different formats, or a non-default placement; for prefixes: the cut falls inside a payload or a table. Distinct = distinct case value."
             .into()
     }
     fn assumptions() -> Vec<String> {
